@@ -27,8 +27,8 @@ Owned(P, s) ==
     \* (every route down from second order is C02's: Dual::from(Dual2) and the set_order / set_order_clone arms of the container)
     [] Prop = "C02" -> (op \in Arith \cup {"to_d1", "set_order", "set_order_clone", "gradient1", "gradient2", "manifold"} \/ PyArith(P, s)) /\ (RankOfStep(P, s) = 2 \/ op \in {"gradient2", "manifold"})
     [] Prop = "C03" -> (op \in {"add", "sub", "mul", "div", "rem", "eq", "ne", "to_new_vars", "union_l", "union_r", "ptr_eq", "vars_cmp"} /\ ~AnyWrapped(P, s))
-                       \/ (op = "py" /\ P.steps[s].ins.name \in {"__eq__", "__add__", "__sub__", "__mul__", "__truediv__", "__rsub__", "__rtruediv__"})   \* the same operations as Python reaches them
-    [] Prop = "C17" -> op \in {"gradient1", "gradient2", "manifold", "mul", "union_l", "union_r", "to_new_vars"}      \* (re-alignment is judged by reading the result back by name)
+                       \/ (op = "py" /\ P.steps[s].ins.name \in {"__eq__", "__add__", "__radd__", "__sub__", "__mul__", "__rmul__", "__truediv__", "__rsub__", "__rtruediv__", "__pow__"})   \* the same operations as Python reaches them
+    [] Prop = "C17" -> op \in {"gradient1", "gradient2", "manifold", "mul", "add", "sub", "union_l", "union_r", "to_new_vars"}      \* (re-alignment is judged by reading the result back by name)
                        \/ (op = "py" /\ P.steps[s].ins.name \in {"grad1_manifold", "vars_from", "ptr_eq", "vars"})  \* the read-backs as Python reaches them
     [] Prop = "C18" -> op \in {"wrap", "unwrap", "to_n", "to_f64", "to_d1", "to_d2", "set_order", "set_order_clone", "py"} \/ AnyWrapped(P, s)
     [] Prop = "C19" -> op \in {"lt", "le", "gt", "ge", "eq", "ne", "abs", "rem", "sum", "zero", "one", "add", "mul", "signum", "is_positive", "is_negative", "is_zero", "abs_sub"}
